@@ -125,6 +125,9 @@ AllBases(c, bo, fuel) ==
       RECURSIVE Cat(_)
       Cat(i) == IF i > Len(bs) THEN <<>> ELSE (IF bs[i] = NoObj THEN <<>> ELSE AllBases(bs[i], bo, fuel - 1)) \o Cat(i + 1)
   IN <<c>> \o Cat(1)
+\* list(dict.fromkeys(seq)): each element once, at its first position (the fallback order of Class._init_mro)
+RECURSIVE Uniq(_)
+Uniq(q) == IF q = <<>> THEN <<>> ELSE <<Head(q)>> \o Uniq(SelectSeq(Tail(q), LAMBDA x : x # Head(q)))
 \* Class.find(name): first hit along Class.mro()
 \* lin: class id -> the sequence Class.mro() yields for it at this moment (allbases before post-processing, the MRO after)
 FindIn(st, c, n, lin) ==
